@@ -1,5 +1,6 @@
 import ScionVerif.Lemmas.Frag
 import ScionVerif.Lemmas.FragLive
+import ScionVerif.Lemmas.FragSlot
 /-!
 # C17 — tunnel reassembly emits only intact packets, at most once, in any frame order
 
@@ -131,7 +132,7 @@ theorem ingest_no_panic (z : α) (n : Nat) (frames : List (Frame α)) (d : Defra
     `last_frame_offset` above `final_packet_size`) the subtraction site fires -/
 example : oneTimeSafe ({
       streamOff := 0, nextFrameOff := 0, buf := [], recv := [], window := some 256,
-      finalSize := some 300, expected := none, lastOff := some 512, idle := false } : Queue Nat) = false := by
+      finalSize := some 300, expected := none, lastOff := some 512, idle := false, used := true } : Queue Nat) = false := by
   decide
 
 /-- **Memory does not grow**: after any frame sequence there are still `n` queues and every reassembly
@@ -421,6 +422,73 @@ theorem emitted_when_complete (sh : Shape) (q : Queue α) (hb : q.buf.length = M
                       (qrun (q.init f0) (fj.map (·.1)))[i']? = some (.err .duplicate) :=
   Live.run_emits fj (q.init f0) [] (Live.init sh q f0 hb hf0) (by have := sh.hn; simp; omega) hfr
     (fun k hk => Or.inr (hall k hk))
+
+/-! ## 6. The whole defragmenter: interleaving with other packets, at most once, emitted when complete
+
+`Owns d i S`: queue `i` is the one `select_queue` finds for stream offset `S`.  `NotReclaimed i d frames`: while
+`frames` are fed to `d`, `select_queue` never re-initialises slot `i` for another packet – the property's premise
+"before its slot is reclaimed" (a condition on the run; `notReclaimedB` is its executable form).  Proofs in
+`Lemmas/FragSlot.lean`. -/
+
+/-- **A frame of another packet – honest or hostile, accepted, refused, lost or duplicated – does not touch the
+slot** of packet `S` unless `select_queue` re-initialises exactly that slot, and it cannot emit a packet
+labelled `S`. -/
+theorem other_packet_frame_leaves_slot {hist : List (Frame α)} {d d' : Defrag α} {i S : Nat} {q : Queue α}
+    {f : Frame α} {o : Out α} (hinv : DInv hist d) (hown : Owns d i S) (hq : d.queues[i]? = some q)
+    (hne : f.hdr.streamOff ≠ S) (hnr : fastPath f = false → selectQueue d f ≠ .fresh i)
+    (hr : d.recvFrame f = some (d', o)) :
+    d'.queues[i]? = some q ∧ Owns d' i S ∧ ∀ p, o ≠ .packet S p :=
+  recv_other hinv hown hq hne hnr hr
+
+/-- **The first frame of an honest multi-frame packet that is given a slot** (idle or evicted) is accepted
+(`Ok(None)`), and from then on that slot is the one `select_queue` finds for the packet. -/
+theorem first_frame_gets_slot {hist : List (Frame α)} {sh : Shape} {d d' : Defrag α} {i j : Nat} {f0 : Frame α}
+    {o : Out α} (hinv : DInv hist d) (hsel : selectQueue d f0 = .fresh i) (hf0 : sh.IsFrame f0 j)
+    (hr : d.recvFrame f0 = some (d', o)) :
+    o = .none ∧ Owns d' i sh.S ∧ ∃ q', d'.queues[i]? = some q' ∧ Live sh q' [j] :=
+  fresh_live hinv hsel hf0 hr
+
+/-- **Emitted exactly once, exactly when complete, under any interleaving.**  Slot `i` is reassembling the
+honest packet `sh` and has accepted the frames `seen`.  Feed *any* frame sequence in which every frame labelled
+`sh.S` is a frame of the packet (any order, any duplicates) – frames of other stream offsets are arbitrary
+(other honest packets complete or with lost frames, hostile frames) – such that the missing frames all occur and
+slot `i` is not reclaimed.  Then the run does not panic, the packet is emitted with exactly `sh.total` bytes at
+an index `t` that holds a frame of the packet, `t` is the first index by which every frame of the packet has
+arrived, and no other result of the run is a packet labelled `sh.S`. -/
+theorem emitted_exactly_once_when_complete {sh : Shape} {i : Nat} (frames : List (Frame α))
+    {hist : List (Frame α)} (d : Defrag α) (q : Queue α) (seen : List Nat) (hinv : DInv hist d)
+    (hown : Owns d i sh.S) (hq : d.queues[i]? = some q) (hlive : Live sh q seen) (hlen : seen.length < sh.n)
+    (hfr : ∀ f ∈ frames, f.hdr.streamOff = sh.S → ∃ j, sh.IsFrame f j)
+    (hnr : NotReclaimed i d frames)
+    (hall : ∀ k, k < sh.n → k ∈ seen ∨ ∃ f ∈ frames, sh.IsFrame f k) :
+    ∃ (d' : Defrag α) (outs : List (Out α)) (t : Nat) (buf : List α),
+      d.run frames = some (d', outs) ∧ buf.length = MAX_PACKET_SIZE ∧
+      outs[t]? = some (.packet sh.S (buf.take sh.total)) ∧
+      (∃ f j, frames[t]? = some f ∧ sh.IsFrame f j) ∧
+      (∀ t' p, t' ≠ t → outs[t']? ≠ some (.packet sh.S p)) ∧
+      (∀ k, k < sh.n → k ∈ seen ∨ ∃ f ∈ frames.take (t + 1), sh.IsFrame f k) ∧
+      (∀ t', t' < t → ∃ k, k < sh.n ∧ k ∉ seen ∧ ∀ f ∈ frames.take (t' + 1), ¬ sh.IsFrame f k) :=
+  live_run_first frames d q seen hinv hown hq hlive hlen hfr hnr hall
+
+/-- **At most once until the slot is reclaimed.**  Once the slot that holds stream offset `S` is idle (it has
+emitted the packet, or gave it up after an inconsistent frame), no multi-frame frame labelled `S` – duplicates
+of the packet's frames included – makes the defragmenter emit a packet labelled `S`, for as long as the slot is
+not re-initialised for another packet. -/
+theorem at_most_once_until_reclaimed {hist : List (Frame α)} {d : Defrag α} {i S : Nat} {q : Queue α}
+    (frames : List (Frame α)) (hinv : DInv hist d) (hown : Owns d i S) (hq : d.queues[i]? = some q)
+    (hidle : q.idle = true) (hnr : NotReclaimed i d frames)
+    (hmulti : ∀ f ∈ frames, f.hdr.streamOff = S → fastPath f = false)
+    (d' : Defrag α) (outs : List (Out α)) (hrun : d.run frames = some (d', outs)) :
+    ∀ (t : Nat) (p : List α), outs[t]? ≠ some (Out.packet S p) :=
+  once_after_idle frames hinv hown hq hidle hnr hmulti d' outs hrun
+
+/-- the at-most-once clause of the property is **false** for single-frame packets (open finding
+`C17:at-most-once:single-frame-duplicate`): the same frame fed twice is emitted twice (kernel-evaluated) -/
+theorem single_frame_duplicate_witness :
+    ((Defrag.new (0 : Nat) 2).run [⟨⟨5, 0, FLAG_LAST⟩, [1, 2, 3]⟩, ⟨⟨5, 0, FLAG_LAST⟩, [1, 2, 3]⟩]).map
+        (fun r => r.2.map (fun o => match o with | .packet s p => some (s, p) | _ => none)) =
+      some [some (5, [1, 2, 3]), some (5, [1, 2, 3])] := by
+  decide +kernel
 
 /-! ## 4. Non-vacuity: concrete runs that satisfy the hypotheses above -/
 
